@@ -2,7 +2,7 @@
    `exact <lemma>` or a vm_compute witness.  Model: Model/Icartt.v (character-level text, the
    line-number state machine of ffi1001.__init__, exact decimals for '%.6e'). *)
 From Coq Require Import String.
-From PNC Require Import Base.Util Model.Icartt Proofs.IcarttProofs.
+From PNC Require Import Base.Util Model.Icartt Proofs.IcarttProofs Proofs.IcarttClosureProofs.
 Local Open Scope string_scope.
 Local Open Scope list_scope.
 Local Open Scope Z_scope.
@@ -321,7 +321,7 @@ Print Assumptions C19_spec_fixed_point.
 (* (ii) SECOND CYCLE ON WHOLE FILES: write . read . write . read = write . read on the variables (names,
    order, units, codes, masks, values), when the file f and the file read back from it both satisfy the
    boolean side conditions. *)
-Theorem C19_second_cycle_whole : forall f n ls ind sd iv r1 n2 ls2 sd2 iv2,
+Theorem C19_second_cycle_whole_given_both : forall f n ls ind sd iv r1 n2 ls2 sd2 iv2,
   impl_write f = Some (n, ls) ->
   indep_name f = Some ind -> get_attr (s2z "SDATE") (f_attrs f) = Some sd -> find_var ind f = Some iv ->
   forallb no_nl (hdr_other f ind sd) = true ->
@@ -334,7 +334,7 @@ Theorem C19_second_cycle_whole : forall f n ls ind sd iv r1 n2 ls2 sd2 iv2,
   header_ok f2 ind = true -> data_ok f2 ind iv2 = true -> spec_ok f2 ind iv2 = true ->
   exists r2, impl_second f = Some r2 /\ r_vars r2 = r_vars r1 /\ spec_roundtrip f = Some (r_vars r1).
 Proof. exact second_cycle_whole. Qed.
-Print Assumptions C19_second_cycle_whole.
+Print Assumptions C19_second_cycle_whole_given_both.
 
 (* VARIABLE PART OF THE CLOSURE: the file that is read back (refile A f ind iv = to_file of the result,
    whatever its attribute list A) satisfies every variable-dependent side condition the original satisfied:
@@ -369,19 +369,59 @@ Theorem C19_second_cycle_whole_attrs : forall f n ls ind sd iv r1 sd2,
 Proof. exact second_cycle_whole_attrs. Qed.
 Print Assumptions C19_second_cycle_whole_attrs.
 
-(* LEFT (DESIGN 8.1 rung 3): the ATTRIBUTE part of the closure, i.e. deriving the four attribute facts of
-   C19_second_cycle_whole_attrs from f.  It needs an invariant on the attribute list carried through the
-   header loop, which C19_header_state_machine leaves existential (exists A):
-     (1) after line 9, get_attr INDEPENDENT_VARIABLE = first comma field of line 9 (= ind for the writer's
-         line, by the argument of C19_line9_units), after line 7 get_attr SDATE = Some _, and no later
-         set_attr overwrites them: the keys parsed from the comment lines must differ from these two, which
-         for the writer's lines follows from C19_user_line (parsed key = written key, for colon-free stripped
-         keys) and from myattrs excluding the ignore list;
-     (2) every key is a strip() result or a constant, hence free of line breaks and not starting with a blank,
-         and every value of the fixed keys is a strip() / join of strip() of a header line, hence free of line
-         breaks (lemmas needed: strip s is an infix of s; set_attr preserves the invariant).
-   The four facts are boolean, hold on the file below (vm_compute) and on every generated in-domain case
-   (F and S compare the second cycle). *)
+(* ATTRIBUTE PART OF THE CLOSURE: the attribute list the reader builds satisfies an invariant through
+   the whole header loop (every key and value is a strip / join of strips of a header line or a constant:
+   no line break, no key starting with a blank; INDEPENDENT_VARIABLE and SDATE are set on lines 9 and 7
+   and never overwritten because comment keys differ from them), hence the four attribute facts of the
+   file read back.  Extra boolean conditions on f: comment keys colon-free and stripped (attr_keys_ok),
+   line 9 starts with the independent variable's name (line9_name_ok). *)
+Theorem C19_side_conditions_closed_attrs : forall f n ls ind sd iv r1,
+  impl_write f = Some (n, ls) ->
+  indep_name f = Some ind -> get_attr (s2z "SDATE") (f_attrs f) = Some sd -> find_var ind f = Some iv ->
+  forallb no_nl (hdr_other f ind sd) = true ->
+  header_ok f ind = true -> attr_keys_ok f = true -> line9_name_ok f ind = true ->
+  impl_roundtrip f = Some r1 ->
+  let f2 := to_file r1 in
+  indep_name f2 = Some ind /\ get_attr (s2z "SDATE") (f_attrs f2) = Some (s2z "-")
+  /\ forallb no_nl (hdr_attrs f2 (s2z "-")) = true /\ attr_lines_ok f2 = true.
+Proof. exact side_conditions_closed_attrs. Qed.
+Print Assumptions C19_side_conditions_closed_attrs.
+
+(* THE CLOSURE: every side condition of the file read back follows from the side conditions of f *)
+Theorem C19_side_conditions_closed : forall f n ls ind sd iv r1,
+  impl_write f = Some (n, ls) ->
+  indep_name f = Some ind -> get_attr (s2z "SDATE") (f_attrs f) = Some sd -> find_var ind f = Some iv ->
+  forallb no_nl (hdr_other f ind sd) = true ->
+  header_ok f ind = true -> data_ok f ind iv = true -> spec_ok f ind iv = true ->
+  attr_keys_ok f = true -> line9_name_ok f ind = true ->
+  impl_roundtrip f = Some r1 ->
+  let f2 := to_file r1 in
+  exists iv2 n2 ls2,
+    impl_write f2 = Some (n2, ls2) /\ indep_name f2 = Some ind
+    /\ get_attr (s2z "SDATE") (f_attrs f2) = Some (s2z "-") /\ find_var ind f2 = Some iv2
+    /\ forallb no_nl (hdr_other f2 ind (s2z "-")) = true
+    /\ header_ok f2 ind = true /\ data_ok f2 ind iv2 = true /\ spec_ok f2 ind iv2 = true.
+Proof. exact side_conditions_closed. Qed.
+Print Assumptions C19_side_conditions_closed.
+
+(* SECOND CYCLE ON WHOLE FILES, hypotheses on f ONLY: write . read . write . read = write . read on the
+   variables (names, order, units, codes, masks, values), and that common result is spec_roundtrip f -
+   for any number of variables, attributes and records. *)
+Theorem C19_second_cycle_whole : forall f n ls ind sd iv r1,
+  impl_write f = Some (n, ls) ->
+  indep_name f = Some ind -> get_attr (s2z "SDATE") (f_attrs f) = Some sd -> find_var ind f = Some iv ->
+  forallb no_nl (hdr_other f ind sd) = true ->
+  header_ok f ind = true -> data_ok f ind iv = true -> spec_ok f ind iv = true ->
+  attr_keys_ok f = true -> line9_name_ok f ind = true ->
+  impl_roundtrip f = Some r1 ->
+  exists r2, impl_second f = Some r2 /\ r_vars r2 = r_vars r1 /\ spec_roundtrip f = Some (r_vars r1).
+Proof. exact second_cycle_whole_f. Qed.
+Print Assumptions C19_second_cycle_whole.
+
+(* Nothing of the whole-file composition is left unproved.  What the whole-file theorems still assume are
+   the boolean side conditions on f (header_ok, data_ok, spec_ok, attr_keys_ok, line9_name_ok, no line break
+   in the non-attribute fields): they delimit the proved domain, hold on the files below (vm_compute) and are
+   the complement of the known-finding regions plus the malformed stream. *)
 Example C19_header_hypotheses_inhabited :
   header_ok w_good (s2z "t") = true /\ forallb no_nl (hdr_other w_good (s2z "t") (s2z "2020, 01, 02")) = true
   /\ line9_unit (indep_line w_good (s2z "t")) = s2z "t"
@@ -417,6 +457,7 @@ Example C19_whole_file_hypotheses_inhabited :
   /\ indep_name w_good = Some (s2z "t")
   /\ match impl_roundtrip w_good with Some r1 => indep_name (to_file r1) | None => None end = Some (s2z "t")
   /\ vars_ok w_good (s2z "t") (tvar "t" "-9999" 16) = true
+  /\ attr_keys_ok w_good = true /\ line9_name_ok w_good (s2z "t") = true
   /\ match impl_roundtrip w_good with
      | Some r1 => forallb no_nl (hdr_attrs (to_file r1) (s2z "-")) && attr_lines_ok (to_file r1)
      | None => false
